@@ -333,9 +333,8 @@ class LtlAstParserVisitor(LtlParserVisitor):
     def visitExprUnless(self, ctx):
         child1 = self.visit(ctx.expression(0))
         child2 = self.visit(ctx.expression(1))
-        interval = self.visit(ctx.interval())
 
-        left = Always(child1, 0, interval.end)
+        left = Always(child1)
         right = Until(child1, child2)
         node = Disjunction(left, right)
 
